@@ -34,7 +34,8 @@ def check(run):
     mc = scen.design_check(run, lifecycle.LIVE, lifecycle.DESIGN_INV, workers=4)
     reports, nscen = [], 0
     # 1. life-cycle behaviours (including StartTLS upgrades, Stop, teardown) under -race
-    fams = ["general", "pipeline", "stop", "starttls", "starttls2", "starttls-inflight", "stopstates", "panic"] if not q else ["general", "pipeline", "starttls2", "stop2", "starttls", "starttls-inflight"]
+    fams = (["general", "pipeline", "stop", "starttls", "starttls2", "starttls-inflight", "starttls-adversarial", "stopstates", "panic", "tls-close", "timeout", "outliving", "long"]
+            if not q else ["general", "pipeline", "starttls2", "stop2", "starttls", "starttls-inflight", "tls-close", "long"])
     scenarios, stats = lifecycle.run_families(run, fams, cap=150 if q else 1500)
     sfile = run.path("scen.ndjson")
     vlib.write_ndjson(sfile, scenarios)
